@@ -172,7 +172,7 @@ pub fn draw(ch: &mut Chooser, prof: &Profile) -> Cfg {
     }
     let stop_w = [4u32, 12, 2, 1][ch.choose(4) as usize];
     let snoop = ch.chance(prof.snoop_pc, 100);
-    let budget = 250;
+    let budget = [250u32, 80, 250, 600][ch.choose(4) as usize];
     let big_pm = prof.big_bodies * 60;
     Cfg {
         nodes,
